@@ -135,6 +135,19 @@ def run(tier):
             if n <= 2:
                 specs.append({"libs": LIB, "steps": steps, "opts": {"fresh_eval_each_step": True}})
                 meta.append(("hist-fresh-eval", seq, None))
+    # ---------------- part 3: deep and cyclic values through natively recursive operations: a result or an error, never a crash
+    for k in (10, 100, 1000, 5000, 20000):
+        for op in ("str(x)", "repr(x)", "json.encode(x)", "x == y", "x < y", "hash(t)", "len(str(t))", "[x] == [y]", "{1: x} == {1: y}",
+                   "sorted([x, y])", "x in [y]", "(x, 1) == (y, 1)", "json.encode(t)", "str(dd)", "json.encode(dd)", "dd == dd2"):
+            src = (f"x = []\ny = []\nt = ()\ndd = {{}}\ndd2 = {{}}\nfor i in range({k}):\n    x = [x]\n    y = [y]\n    t = (t,)\n"
+                   f"    dd = {{1: dd}}\n    dd2 = {{1: dd2}}\nemit(probe(lambda: {op}))\n")
+            specs.append({"steps": [src, PROBE]})
+            meta.append(("deep", (k, op), None))
+    for op in ("str(c)", "repr(c)", "json.encode(c)", "c == c2", "c < c2", "sorted([c, c2])", "str(d)", "d == d2", "json.encode(d)", "c in [c2]",
+               "hash((1, c))", "'%s' % (c,)", "'{}'.format(c)", "prepr(c)", "pstr(d)"):
+        src = f"c = [1]\nc.append(c)\nc2 = [1]\nc2.append(c2)\nd = {{}}\nd[1] = d\nd2 = {{}}\nd2[1] = d2\nemit(probe(lambda: {op}))\n"
+        specs.append({"steps": [src, PROBE]})
+        meta.append(("deep", ("cyclic", op), None))
     for i, s in enumerate(specs):
         s["id"] = i
         s.setdefault("opts", {})["dialect"] = "all"
@@ -153,6 +166,14 @@ def run(tier):
         if kind == "probe0" and "steps" in o:
             probe0 = o["steps"][0]["out"]
     for s, (kind, a, b), o in zip(specs, meta, outs):
+        if kind == "deep":
+            k, op = a
+            if "crash" in o or "panic" in o:
+                res.violation("C07:crash:json-deep" if (op.startswith("json.encode") and k != "cyclic") else f"C07:crash:deep:{op.split('(')[0]}",
+                              {"depth": k, "op": op, "out": str(o)[:400], "spec": s})
+            elif o["steps"][0]["err"] is not None or o["steps"][1]["err"] is not None or o["steps"][0]["out"][0] not in ('s"ok"', 's"err"'):
+                res.violation(f"C07:deep-malformed:{op.split('(')[0]}", {"depth": k, "op": op, "steps": [x["out"] for x in o["steps"]], "spec": s})
+            continue
         if "crash" in o or "panic" in o:
             if kind == "calls":
                 bad = isolate(b, o)
